@@ -257,12 +257,31 @@ def navigation_check(chk, fails, dis, stats):
     prng = random.Random("C19-long-%d" % chk.seed)
     for i in range(chk.size(8, 60)):
         c, g = gen_check.valid_script(chk.seed + 4242, i, {"stmts_max": 2, "depth": 3, "ddepth": 2, "origins": 0.5})
-        t = gen_check.pad_text(c["script"], prng, size=prng.choice([4096, 65530, 65536, 65537, 70000, 140000]))
+        size = prng.choice([4096, 65530, 65536, 65537, 70000, 140000])
+        if i % 3 == 2:
+            # the long comment on the SAME line as code: tokens at columns beyond 65536
+            lines = c["script"].splitlines(True)
+            cand = [k for k, ln in enumerate(lines) if "$" in ln] or [0]
+            k = prng.choice(cand)
+            lines[k] = "/*" + "y" * size + "*/ " + lines[k]
+            t = "".join(lines)
+        else:
+            t = gen_check.pad_text(c["script"], prng, size=size)
         decls, uses = gen_check.scan_vars(t)
         masked = gen_check.strip_comments_mask(t)
         offs = [u["start"] + 1 for u in uses] + [d["start"] + 1 for d in decls] + \
                [mm.start(1) + 1 for mm in re.finditer(r"\b(set_tx_meta|set_account_meta|meta|balance|overdraft)\(", masked)] + \
                [prng.randrange(len(t)) for _ in range(10)]
+        # inside a long line, 65536 columns to the right of where the next line has something (and to the left of where
+        # this line has): nothing is there
+        tl = t.split("\n")
+        for u in uses[:8]:
+            ln, col = gen_check.line_col(t, u["start"] + 1)
+            for dl in (-1, 0, 1):
+                for shift in (65536, -65536):
+                    l2, c2 = ln + dl, col + shift
+                    if 0 <= l2 < len(tl) and 0 <= c2 <= len(tl[l2]):
+                        offs.append(sum(len(x) + 1 for x in tl[:l2]) + c2)
         positions = sorted(set(tuple(gen_check.line_col(t, o)) for o in offs))
         positions = [list(p_) for p_ in positions]
         reqs = [req_open(URIS[0], t)]
